@@ -433,6 +433,43 @@ def _subst_maxdepth(e):
 
 
 # --------------------------------------------------------------------------
+def _helper_calls(ci, node):
+    """[(call, helper FuncInfo, name of the helper parameter that receives
+    `other`)] for self.<private method>(... other ...) calls inside node"""
+    out = []
+    for c in ast.walk(node):
+        if isinstance(c, ast.Call) and isinstance(c.func, ast.Attribute) \
+                and isinstance(c.func.value, ast.Name) and \
+                c.func.value.id == "self" and c.func.attr in ci.methods:
+            h = ci.methods[c.func.attr]
+            hp = h.params[1:] if h.params[:1] == ["self"] else h.params
+            bound = None
+            for k, a in enumerate(c.args):
+                if norm(a) == "other" and k < len(hp):
+                    bound = hp[k]
+            for kw in c.keywords:
+                if norm(kw.value) == "other" and kw.arg in hp:
+                    bound = kw.arg
+            out.append((c, h, bound))
+    return out
+
+
+def _helper_demotes(h):
+    """every normal return of helper h is preceded by a flattening of self"""
+    g = CFG(h.node)
+    dem = [n for n, s in g.stmt.items() if g.kind[n] == "stmt" and any(
+        isinstance(x, ast.Call) and norm(x.func) in
+        ("self._demote_all", "self.get_demoted") for x in ast.walk(s))]
+    return bool(dem) and g.path_avoiding(ENTRY, EXIT, set(dem)) is None
+
+
+def _helper_returns_demoted(h, param):
+    rets = [s for s in walk_no_nested(h.node) if isinstance(s, ast.Return)]
+    return bool(rets) and param is not None and all(
+        r.value is not None and _depends_on_call(
+            h.node, r.value, param, ("get_demoted",)) for r in rets)
+
+
 def r3(ctx, ci):
     ctx.rule("C08-R3", "without/intersect/symmetric_difference apply "
              "difference_update/intersection_update/"
@@ -479,6 +516,17 @@ def r3(ctx, ci):
         # operand depends on other.get_demoted()
         dep = _depends_on_call(fi.node, call.args[0] if call.args else None,
                                "other", ("get_demoted",))
+        if not dep and call.args:
+            # ... or on a helper that returns other's flattened set
+            ex = call.args[0]
+            for _ in range(4):
+                if isinstance(ex, ast.Name):
+                    r_ = _resolve_local(fi.node, ex)
+                    if r_ is ex:
+                        break
+                    ex = r_
+            dep = any(b is not None and _helper_returns_demoted(h, b)
+                      for c_, h, b in _helper_calls(ci, ex))
         ctx.check("C08-R3", fi, "operand of the set operation in %s" % m,
                   dep, "operand %s is not derived from other.get_demoted()"
                   % (norm(call.args[0]) if call.args else "<none>"),
@@ -491,6 +539,8 @@ def r3(ctx, ci):
         dem = [n for n, s in g.stmt.items() if g.kind[n] == "stmt" and any(
             isinstance(x, ast.Call) and norm(x.func) in
             ("self._demote_all", "self.get_demoted") for x in ast.walk(s))]
+        dem += [n for n, s in g.stmt.items() if g.kind[n] == "stmt" and any(
+            _helper_demotes(h) for c_, h, b in _helper_calls(ci, s))]
         ren = [n for n, s in g.stmt.items() if g.kind[n] == "stmt" and any(
             isinstance(x, ast.Call) and norm(x.func) == "self._renorm"
             for x in ast.walk(s))]
@@ -605,13 +655,40 @@ def r3(ctx, ci):
 
 
 def _resolve_local(fnode, expr):
+    """the defining expression of a local name that is bound exactly once
+    (directly, or element-wise by  a, b = x, y ); anything else is returned
+    unchanged"""
     if isinstance(expr, ast.Name):
-        defs = [n for n in walk_no_nested(fnode) if isinstance(n, ast.Assign)
-                and len(n.targets) == 1 and
-                isinstance(n.targets[0], ast.Name) and
-                n.targets[0].id == expr.id]
-        if len(defs) == 1:
-            return defs[0].value
+        defs = []
+        other = 0
+        for n in walk_no_nested(fnode):
+            if isinstance(n, ast.Assign):
+                for t in n.targets:
+                    if isinstance(t, ast.Name) and t.id == expr.id:
+                        if len(n.targets) == 1:
+                            defs.append(n.value)
+                        else:
+                            other += 1
+                    elif isinstance(t, (ast.Tuple, ast.List)) and any(
+                            isinstance(e, ast.Name) and e.id == expr.id
+                            for e in t.elts):
+                        if len(n.targets) == 1 and isinstance(
+                                n.value, (ast.Tuple, ast.List)) and \
+                                len(n.value.elts) == len(t.elts) and \
+                                not any(isinstance(e, ast.Starred)
+                                        for e in list(t.elts) +
+                                        list(n.value.elts)):
+                            k = [isinstance(e, ast.Name) and e.id == expr.id
+                                 for e in t.elts].index(True)
+                            defs.append(n.value.elts[k])
+                        else:
+                            other += 1
+            elif isinstance(n, (ast.AugAssign, ast.For, ast.AnnAssign)) and \
+                    isinstance(getattr(n, "target", None), ast.Name) and \
+                    n.target.id == expr.id:
+                other += 1
+        if len(defs) == 1 and not other:
+            return defs[0]
     return expr
 
 
